@@ -1,32 +1,71 @@
 """Generates the TLC configurations of specs/forwarding (run by hand after editing WORLDS:
 `/venv/bin/python -m harness.x03_gencfg`).  One WORLD = one assignment of the constants of
-Forwarding.tla; per world: MC_<w>.cfg (exhaustive, properties, vacuity names), MCS_<w>.cfg (the same
-with Strict = TRUE), EX_edges_<w>.cfg (one behaviour per transition), EX_sim_<w>.cfg (-simulate),
-Trace_<w>.cfg (code -> spec)."""
+Forwarding.tla (x NBuf).  Per world:
+  MC_<w>_q.cfg / MC_<w>_t.cfg   all states within Dq / Dt steps (VIEW hides the history), every invariant and
+                                action property; MCS_<w>_q.cfg the same with Strict = TRUE (the documented intent)
+  MCX_<w>.cfg                   properties checked AND one behaviour per transition of the depth-bounded state
+                                graph exported (ACTION_CONSTRAINT ExportT), in one run (spec -> code)
+  EX_edges_<w>.cfg              the export alone
+  EXS_edges_<w>.cfg             the same from the strict model (used in notes/X03.md only: the code must FAIL these)
+  EX_sim<depth>_<w>.cfg         -simulate walks, invariants and properties checked along the way
+  Trace_<w>.cfg                 code -> spec
+The python mirror of the constants (SETS) is what the random driver of props/X03.py draws from."""
 import os
 
 DIR = os.path.join(os.path.dirname(os.path.dirname(os.path.abspath(__file__))), "specs", "forwarding")
 
-# name: (Comp, NS, Links, NoFlood, Cuts, Hosts, InitAt, MovePorts, Dsts, Shapes, Gaps, [NBuf...], D_edges, D_mc)
-WORLDS = {
-    "hubpro_T3": ("hub_pro", 3, "L_T3", "NF_none", "L_none", "H3", "At3_3", "Mv_none", "D_All3", "Sh_al", "G_31", [2], 3, 0),
-    "hubpro_T2": ("hub_pro", 2, "L_T2", "NF_none", "L_none", "H3", "At2_3", "Mv2s", "D_H3UB", "Sh_al", "G_none", [0], 3, 0),
-    "hubre_T2": ("hub_re", 2, "L_T2", "NF_none", "L_none", "H3", "At2_3", "Mv2s", "D_H3UB", "Sh_al", "G_none", [0, 2], 3, 0),
-    "hubre_Tri": ("hub_re", 3, "L_Tri", "NF_Tri", "L_none", "H3", "AtTri", "Mv_none", "D_H3UB", "Sh_a", "G_none", [2], 3, 0),
-    "pairs_T1": ("pairs", 1, "L_none", "NF_none", "L_none", "H3", "At1_3", "Mv1", "D_All3", "Sh_a", "G_31", [0, 2], 3, 0),
-    "pairs_T1s": ("pairs", 1, "L_none", "NF_none", "L_none", "H2", "At1_same", "Mv_none", "D_H2B", "Sh_ab", "G_none", [2], 4, 0),
-    "pairs_T2": ("pairs", 2, "L_T2", "NF_none", "L_none", "H3", "At2_3", "Mv2s", "D_H3B", "Sh_a", "G_none", [0, 2], 3, 0),
-    "pairs_T3": ("pairs", 3, "L_T3", "NF_none", "L_none", "H3", "At3_3", "Mv_none", "D_H3UB", "Sh_al", "G_none", [2], 3, 0),
-    "multi_T1": ("multi", 1, "L_none", "NF_none", "L_none", "H3", "At1_3", "Mv_none", "D_All3", "Sh_abl", "G_6_31", [0, 2], 3, 0),
-    "multi_T1s": ("multi", 1, "L_none", "NF_none", "L_none", "H2", "At1_same", "Mv_none", "D_H2B", "Sh_ar", "G_6", [2], 4, 0),
-    "multi_T2": ("multi", 2, "L_T2", "NF_none", "L_T2", "H2", "At2_2", "Mv_none", "D_H2B", "Sh_ar", "G_6_31", [0, 1, 2], 4, 0),
-    "multi_T3": ("multi", 3, "L_T3", "NF_none", "L_none", "H3", "At3_3", "Mv_none", "D_H3UB", "Sh_abl", "G_6_11", [2], 3, 0),
-    "multi_Tri": ("multi", 3, "L_Tri", "NF_Tri", "C_Tri12", "H3", "AtTri", "Mv_none", "D_H3B", "Sh_ab", "G_6_11", [0, 2], 3, 0),
+UNK, BCAST, MCAST = 90, 91, 92
+T2 = {(1, 3): (2, 3)}
+T3 = {(1, 3): (2, 3), (2, 2): (3, 3)}
+TRI = {(1, 2): (2, 2), (1, 3): (3, 2), (2, 3): (3, 3)}
+SETS = {
+    "L_none": {}, "L_T2": T2, "L_T3": T3, "L_Tri": TRI,
+    "NF_none": [], "NF_Tri": [(2, 3), (3, 3)],
+    "C_Tri12": [(1, 2, 2, 2), (2, 3, 3, 3)],
+    "H2": [1, 2], "H3": [1, 2, 3],
+    "At1_3": {1: (1, 1), 2: (1, 2), 3: (1, 3)}, "At1_2": {1: (1, 1), 2: (1, 2)}, "At1_same": {1: (1, 1), 2: (1, 1)},
+    "At2_3": {1: (1, 1), 2: (1, 2), 3: (2, 1)}, "At2_2": {1: (1, 1), 2: (2, 1)},
+    "At3_3": {1: (1, 1), 2: (2, 1), 3: (3, 1)}, "AtTri": {1: (1, 1), 2: (2, 1), 3: (3, 1)},
+    "Mv_none": [], "Mv1": [(1, 1), (1, 2), (1, 3)], "Mv2": [(1, 1), (1, 2), (2, 1), (2, 2)], "Mv2s": [(1, 2), (2, 2)],
+    "D_H2": [1, 2], "D_H2B": [1, 2, BCAST], "D_H3": [1, 2, 3], "D_H3B": [1, 2, 3, BCAST],
+    "D_H3UB": [1, 2, 3, UNK, BCAST], "D_All3": [1, 2, 3, UNK, BCAST, MCAST], "D_All2": [1, 2, UNK, BCAST, MCAST],
+    "D_1UB": [1, UNK, BCAST],
+    "Sh_a": ["a"], "Sh_ab": ["a", "b"], "Sh_al": ["a", "l"], "Sh_abl": ["a", "b", "l"], "Sh_ar": ["a", "r"],
+    "Sh_ablr": ["a", "b", "l", "r"],
+    "G_none": [], "G_31": [31], "G_6": [6], "G_6_11": [6, 11], "G_6_31": [6, 31], "G_3_6_31": [3, 6, 31],
+    "G_all": [6, 11, 31],
 }
+
+# name: (Comp, NS, Links, NoFlood, Cuts, Hosts, InitAt, MovePorts, Dsts, Shapes, Gaps, [NBuf...], D_edges, Dq, Dt)
+WORLDS = {
+    "hubpro_T3": ("hub_pro", 3, "L_T3", "NF_none", "L_none", "H3", "At3_3", "Mv_none", "D_1UB", "Sh_al", "G_31", [2], 2, 2, 4),
+    "hubpro_T2": ("hub_pro", 2, "L_T2", "NF_none", "L_none", "H3", "At2_3", "Mv2s", "D_1UB", "Sh_a", "G_none", [0], 2, 2, 4),
+    "hubre_T2": ("hub_re", 2, "L_T2", "NF_none", "L_none", "H3", "At2_3", "Mv2s", "D_1UB", "Sh_al", "G_none", [0, 2], 2, 2, 4),
+    "hubre_Tri": ("hub_re", 3, "L_Tri", "NF_Tri", "L_none", "H3", "AtTri", "Mv_none", "D_1UB", "Sh_a", "G_none", [2], 2, 2, 4),
+    "pairs_T1": ("pairs", 1, "L_none", "NF_none", "L_none", "H3", "At1_3", "Mv1", "D_All3", "Sh_a", "G_31", [0, 2], 3, 3, 4),
+    "pairs_T1s": ("pairs", 1, "L_none", "NF_none", "L_none", "H2", "At1_same", "Mv_none", "D_H2B", "Sh_ab", "G_none", [2], 4, 4, 6),
+    "pairs_T2": ("pairs", 2, "L_T2", "NF_none", "L_none", "H3", "At2_3", "Mv2s", "D_H3B", "Sh_a", "G_none", [0, 2], 3, 3, 4),
+    "pairs_T3": ("pairs", 3, "L_T3", "NF_none", "L_none", "H3", "At3_3", "Mv_none", "D_H3UB", "Sh_al", "G_none", [2], 3, 3, 4),
+    "multi_T1": ("multi", 1, "L_none", "NF_none", "L_none", "H3", "At1_3", "Mv_none", "D_H3UB", "Sh_abl", "G_3_6_31", [0, 2], 2, 2, 3),
+    "multi_T1s": ("multi", 1, "L_none", "NF_none", "L_none", "H2", "At1_same", "Mv_none", "D_H2B", "Sh_ar", "G_6", [2], 4, 4, 6),
+    "multi_T2": ("multi", 2, "L_T2", "NF_none", "L_T2", "H2", "At2_2", "Mv_none", "D_H2B", "Sh_ar", "G_6_31", [0, 1, 2], 3, 3, 5),
+    "multi_T3": ("multi", 3, "L_T3", "NF_none", "L_none", "H3", "At3_3", "Mv_none", "D_H3UB", "Sh_abl", "G_6_11", [2], 2, 2, 3),
+    "multi_Tri": ("multi", 3, "L_Tri", "NF_Tri", "C_Tri12", "H3", "AtTri", "Mv_none", "D_H3B", "Sh_ab", "G_6_11", [0, 2], 3, 3, 4),
+}
+FIELDS = ("comp", "ns", "links", "noflood", "cuts", "hosts", "at", "moves", "dsts", "shapes", "gaps", "nbufs",
+          "d_edges", "dq", "dt")
 
 INVS = ["TypeOK", "UniqueHit", "LearnedTrue", "NoLeak", "FlowsFollowLinks", "FlowsLoopFree"]
 PROPS = ["LeakOnlyByDeviation", "StrictHasNoDeviation", "NeverBack", "OncePerSwitch", "HubFloodsAll", "PairsIdeal",
          "MultiFloods", "MultiDropsLldp", "MultiDelivers", "IcmpAtEdge"]
+
+
+def world(w):
+  """python view of a world: names resolved through SETS"""
+  d = dict(zip(FIELDS, WORLDS[w]))
+  for k in ("links", "noflood", "cuts", "hosts", "at", "moves", "dsts", "shapes", "gaps"):
+    d[k] = SETS[d[k]]
+  return d
 
 
 def consts(w, nbuf, strict, d):
@@ -41,23 +80,29 @@ def names(w):
     yield "%s_b%d" % (w, nb), nb
 
 
+def all_names():
+  return [(w, n, nb) for w in WORLDS for n, nb in names(w)]
+
+
 def main():
   for f in os.listdir(DIR):
     if f.endswith(".cfg"):
       os.remove(os.path.join(DIR, f))
   for w in WORLDS:
-    dE = WORLDS[w][12]
+    dE, dq, dt = WORLDS[w][12:15]
     for name, nb in names(w):
       props = "".join("INVARIANT %s\n" % i for i in INVS) + "".join("PROPERTY %s\n" % p for p in PROPS)
-      for pre, strict in (("MC", False), ("MCS", True)):
-        with open(os.path.join(DIR, "%s_%s.cfg" % (pre, name)), "w") as f:
-          f.write(consts(w, nb, strict, 0) + "INIT Init\nNEXT NextC\nVIEW view\nCHECK_DEADLOCK FALSE\n" + props)
+      mc = "INIT Init\nNEXT Next\nVIEW viewE\nCONSTRAINT Bound\nCHECK_DEADLOCK FALSE\n" + props
+      for fn, strict, d in (("MC_%s_q", False, dq), ("MC_%s_t", False, dt), ("MCS_%s_q", True, dq), ("MCS_%s_t", True, dt)):
+        with open(os.path.join(DIR, (fn % name) + ".cfg"), "w") as f:
+          f.write(consts(w, nb, strict, d) + mc)
+      ex = "INIT Init\nNEXT Next\nVIEW viewE\nCONSTRAINT Bound\nACTION_CONSTRAINT ExportT\nCHECK_DEADLOCK FALSE\n"
+      with open(os.path.join(DIR, "MCX_%s.cfg" % name), "w") as f:          # model check AND export in one run
+        f.write(consts(w, nb, False, dE) + ex + props)
       with open(os.path.join(DIR, "EX_edges_%s.cfg" % name), "w") as f:
-        f.write(consts(w, nb, False, dE) + "INIT Init\nNEXT Next\nVIEW viewE\nCONSTRAINT Bound\n"
-                "ACTION_CONSTRAINT ExportT\nCHECK_DEADLOCK FALSE\n")
-      with open(os.path.join(DIR, "EXS_edges_%s.cfg" % name), "w") as f:      # the strict model's behaviours (notes only)
-        f.write(consts(w, nb, True, dE) + "INIT Init\nNEXT Next\nVIEW viewE\nCONSTRAINT Bound\n"
-                "ACTION_CONSTRAINT ExportT\nCHECK_DEADLOCK FALSE\n")
+        f.write(consts(w, nb, False, dE) + ex)
+      with open(os.path.join(DIR, "EXS_edges_%s.cfg" % name), "w") as f:
+        f.write(consts(w, nb, True, dE) + ex)
       for depth in (30, 80):
         with open(os.path.join(DIR, "EX_sim%d_%s.cfg" % (depth, name)), "w") as f:
           f.write(consts(w, nb, False, depth) + "INIT Init\nNEXT Next\nCHECK_DEADLOCK FALSE\nINVARIANT Export\n" + props)
